@@ -9,7 +9,7 @@ rm -f "$DEST"
 git apply -R --check SEED/patch.diff 2>/dev/null || git apply SEED/patch.diff
 echo "--- suite with the change"
 cargo nextest run --workspace --no-fail-fast --offline 2>&1 | tail -1
-mkdir -p "$(dirname "$DEST")"; cp SEED/demo.rs "$DEST"
+mkdir -p "$(dirname "$DEST")"; cp SEED/${DEMO:-demo.rs} "$DEST"
 echo "--- demo with the change (expected to fail)"
 "$@" > /tmp/seed_demo_with.log 2>&1; echo "rc=$?"; grep -E "test result|Summary|FAIL|failed" /tmp/seed_demo_with.log | head -5
 git apply -R SEED/patch.diff
